@@ -91,3 +91,39 @@ Theorem gathered_nat_entries calls :
   value (vals (crun calls)) ["udp_nat_entries_removed"%string] = zcount is_uremove calls.
 Proof. exact (nat_entries_lemma calls). Qed.
 Print Assumptions gathered_nat_entries.
+
+(* ---- end to end: the wire, the handler model, its metric calls, the collector model ------------ *)
+From OSS Require Import theories.UdpMetrics.
+
+(* For every history of client datagrams, expiries and datagrams arriving at NAT sockets run through
+   the handler model from a fresh handler, the gathered data_bytes{proto="udp"} of every key and
+   direction equal the wire: c>p the sizes of the client datagrams that created or arrived on an
+   association of that key, p>t the payload sizes that left towards targets on it, p<t the payload
+   sizes that arrived at its NAT socket, c<p the sizes of the datagrams sent back to its client.
+   ([f] writes a key ID as a label value, [sname] a status code as a status label; any will do.) *)
+Theorem gathered_udp_equals_wire f sname e ue st ops k fromclient first :
+  u_nat st = [] ->
+  value (vals (crun (urun f sname e ue st ops))) (data "udp" (udir fromclient first) k) =
+  wire f sname fromclient first k e ue st ops.
+Proof. exact (gathered_udp_equals_wire_lemma f sname e ue st ops k fromclient first). Qed.
+Print Assumptions gathered_udp_equals_wire.
+
+Local Open Scope N_scope.
+(* a concrete history (two keys, two clients, a wrong-key datagram on a live association, a reply,
+   an expiry and a re-creation): the six sums are the expected non-trivial numbers *)
+From OSS Require Corr.UDP.
+From Coq Require Ascii.
+Definition ex_idstr (id : bytes) : String.string := String.string_of_list_ascii (map Ascii.ascii_of_N id).
+Definition ex_st : ustate := {| u_cl := {| gen := 0; items := UDP.mk_entries [(0,0,1);(1,1,2)] |}; u_nat := []; u_next := 0 |}.
+Definition ex_pk1 := UDP.dgram_of env0 0 (UDP.DHonest 0 1 11 0 9 40 5 []).
+Definition ex_pk2 := UDP.dgram_of (fst ex_pk1) 1 (UDP.DHonest 0 1 12 0 9 100 6 []).
+Definition ex_pk3 := UDP.dgram_of (fst ex_pk2) 2 (UDP.DHonest 1 2 13 0 9 7 7 []).
+Definition ex_ops : list UdpMetrics.uop :=
+  [UDgram 1 1 (snd ex_pk1); UDgram 1 1 (snd ex_pk2); UDgram 2 2 (snd ex_pk3); UDgram 1 1 (snd ex_pk3);
+   UReplyOp 0 (V4 (127 * 2^24 + 1)) 9 (gb 33 3) (raws (gb 32 99)) 5000; UExpireOp 1; UDgram 1 1 (snd ex_pk1)].
+Definition ex_w fc first k :=
+  wire ex_idstr (fun _ => String.EmptyString) fc first k (fst ex_pk3) (UDP.the_uenv false) ex_st ex_ops.
+Example gathered_udp_equals_wire_nonvacuous :
+  (ex_w true true "A", ex_w true false "A", ex_w false true "A", ex_w false false "A", ex_w true true "B", ex_w true false "B")%string
+  = (407, 180, 33, 88, 62, 7)%Z.
+Proof. vm_compute. reflexivity. Qed.
